@@ -7,6 +7,28 @@ import driver
 MEMCHECK = driver.MEMCHECK
 
 
+_probe_cache = {}
+
+
+def join_probe():
+    """-> True when nitro::lang::join compiles (and works) for list / single-pass iterators"""
+    if "ok" not in _probe_cache:
+        import build
+        import subprocess
+        try:
+            exe = build.build_exe("gasan", ["strdrv_join_probe.cpp"])
+            _probe_cache["ok"] = subprocess.run([exe], capture_output=True).returncode == 0
+        except build.BuildError:
+            _probe_cache["ok"] = False
+    return _probe_cache["ok"]
+
+
+def strdrv(tag):
+    """the string / format driver; built without the list / single-pass join operations when they do not compile"""
+    import build
+    return build.build_exe(tag, ["strdrv.cpp"], extra=[] if join_probe() else ["-DSTRDRV_JOIN_RANDOM_ACCESS_ONLY"])
+
+
 def run_ops(exe, ops, batch=400, cpu=8, tagprefix="b", max_bad=6, env=None, max_bad_batches=3, wrapper=()):
     """ops: list of command lines (str).  Returns list of results aligned with ops:
     ('ok', line) | ('crash', key, report) | ('timeout',) | ('watchdog',) | ('missing',)"""
@@ -47,7 +69,7 @@ def run_ops(exe, ops, batch=400, cpu=8, tagprefix="b", max_bad=6, env=None, max_
             for i in group:
                 results[i] = ("skipped",)
             continue
-        singles = [("s%d" % i, "CASE s%d %g\n%s\nEND\n" % (i, 80.0 if wrapper else 2.0, ops[i])) for i in group]
+        singles = [("s%d" % i, "CASE s%d %g\n%s\nEND\n" % (i, 15.0 if wrapper else 2.0, ops[i])) for i in group]
         res = driver.run_cases(exe, singles, retry_timeouts=True, env=env, wrapper=wrapper)
         for i in group:
             r = res.get("s%d" % i)
